@@ -1,14 +1,14 @@
 SPECIFICATION Spec
 CONSTANTS
   Obj = {1, 2, 3}
-  MaxSteps = 99
+  MaxSteps = 6
   TlsRecurse = TRUE
   SweepCoop = TRUE
   Emit = FALSE
   ClearOnProcess = TRUE
-  Spawners = FALSE
+  Spawners = TRUE
   NestedSweep = FALSE
-  TeardownLoop = TRUE
+  TeardownLoop = FALSE
   StopOps = FALSE
 VIEW view
 ACTION_CONSTRAINT EmitEdge
